@@ -144,7 +144,7 @@ class site_model:
         def sample_binder(ks, name=None, sample_shape=(), support=None, **kw):
             return lambda *a, **k: ks(KEY, *a, sample_shape=sample_shape, **k)
 
-        def log_density_binder(lp, name=None):
+        def log_density_binder(lp, name=None, **options):
             return lambda v, *a, **k: lp(v, *a, **k)
 
         pjax.sample_binder, pjax.log_density_binder = sample_binder, log_density_binder
